@@ -29,25 +29,25 @@ CHECKS = {
          "Every small-domain value of every built-in CborLen instantiation, the integer width tables (exhaustive to 16 bits, 2^32 in the thorough tier), every Token variant with boundary payloads and every value of every generated derive schema: len(v) must equal the number of bytes written, a buffer of exactly that size must suffice and one byte less must fail with a write error.",
          "trusted: the real encoder is the oracle for the length (C03/C08 check the encoder itself)", "5/C07"),
  "C11": (True, "exhaustive enumeration of well-formed item sequences and of token sequences over a boundary alphabet; tokenise / re-encode compared with a reference head list",
-         "All item trees up to the node bound (all head widths for small ones), all ordered pairs of small items, all 65536 half items except signalling NaNs and all simple values are tokenised and re-encoded: tokens must equal the reference pre-order head list and the bytes must be reproduced (shortest heads for non-preferred input); every token sequence up to length 3/4 over an 85-token alphabet must survive encode + tokenise value-equal; on all byte strings up to the bound tokenisation ends after at most one item per byte.",
+         "All item trees up to the node bound (all head widths for small ones), all ordered pairs of small items, all 65536 half items except signalling NaNs and all simple values are tokenised and re-encoded: tokens must equal the reference pre-order head list and the bytes must be reproduced (shortest heads for non-preferred input); every token sequence up to length 3/4 over an 85-token alphabet must survive encode + tokenise value-equal; tokenizers started mid-stream through every constructor yield exactly the tokens of the rest; on all byte strings up to the bound tokenisation ends after at most one item per byte.",
          "trusted: refmodel parser/encoder and the reference head list in harness/checks/src/c11.rs", "5/C11"),
  "C13": (True, "exhaustive (value, capacity, sink) enumeration + closed state-space search over write_all sequences on small cursors, against a Vec-with-capacity model",
          "Every small-domain value with an encoding <= 40 bytes is encoded into every sink kind at every capacity 0..=len+1: success iff it fits, identical bytes in all sinks, write error otherwise with an untouched tail, intact guard regions and a prefix of the encoding left behind; all sequences of <= 3/4 raw write_all calls of every length on cursors of capacity 0..=4 are compared step by step with the model (position, all-or-nothing).",
          "trusted: Vec-with-capacity model; guard regions only observe writes through safe code paths", "5/C13"),
  "C19": (True, "exhaustive input/tree enumeration against a length-limited fmt sink and a reference renderer of the documented notation",
-         "display() is run on all byte strings up to the bound, the hostile heads and all one-point deviations of small trees into a sink that refuses more than 16*len+512 bytes and under the input-access counter; for all well-formed trees up to the node bound in every head-width assignment the output must equal the reference rendering of the documented diagnostic notation.",
+         "display() is run on all byte strings up to the bound, the hostile heads and all one-point deviations of small trees into a sink that refuses more than 16*len+512 bytes and under the input-access counter; for all well-formed trees up to the node bound in every head-width assignment, for boundary leaf values of every kind (all 65536 half items, integer lattice at all widths, strings with special characters) and for tokenizers started mid-stream the output must equal the reference rendering of the documented diagnostic notation.",
          "trusted: refmodel::render (floats through Rust's {:e}), size constant 16*len+512", "5/C19"),
  "C02": (True, "exhaustive input enumeration (all byte strings <= 2/3/4 bytes, hostile heads, all one-point deviations of valid encodings) x state closure over Decoder positions, with unwind / allocation / work / drop monitors",
-         "Every decoding entry point (~210: typed decode of every table type, accessors, iterators driven to completion and abandoned, skip, tokens, probe, Size, display, drop-tracking element types) is run from every position of {0..=len+1, usize::MAX} on every byte string up to the bound, on ~6000 hostile heads and on every single-byte substitution / truncation / argument replacement of valid encodings. A call must return, stay in bounds, allocate at most a type constant plus a constant per input byte, perform at most 8*len+64 input accesses (hook H2) and drop decoded values exactly once.",
+         "Every decoding entry point (~210: typed decode of every table type, accessors, iterators driven to completion and abandoned, skip, tokens, probe, Size, display, drop-tracking element types) is run from every position of {0..=len+1, usize::MAX} on every byte string up to the bound, on ~6000 hostile heads and on every single-byte substitution / truncation / argument replacement of valid encodings. A call must return, stay in bounds, allocate at most a type constant plus a constant per input byte, perform at most 8*len+64 input accesses (hook H2) and drop decoded values exactly once; all ordered pairs of 26 calls on one decoder must behave like the second call on a fresh decoder at the position the first one left (no hidden state); fatal signals raised by the subject are verdicts.",
          "trusted: counting allocator, H2 counter, watchdog; inputs longer than the bound are reached only as deviations of valid encodings (<= 40 bytes)", "5/C02"),
  "C04": (True, "exhaustive tree enumeration x all head-width assignments x ~150 decoding operations, judged by a three-valued reference relation",
          "All well-formed item trees up to the node bound in every admissible head-width assignment (plus single deviations for the next size) are decoded through every typed accessor, iterator and ~125 target types; an independent relation (must-ok / must-err / may) derived from the RFC data model decides each result, including exact end position and borrowed-slice provenance; type-directed re-framings (<= 2 deviations) of every small-domain value and every strict prefix are included.",
          "trusted: refmodel::shape::decode_ref (three-valued so that API-documented restrictions are never demanded), refmodel parser/encoder", "5/C04"),
  "C06": (True, "exhaustive tree enumeration x suffixes x prefixes + periodic deep-nesting families, against reference item boundaries and a decoder built from the public accessors",
-         "All item trees up to 6 nodes over a structural alphabet (definite/indefinite arrays and maps, chunked strings, tags) x 6 suffixes, all width assignments for <= 3 nodes, every strict prefix, and all 155 nesting patterns of period <= 3 at depth 10^4: skip() must end exactly at the item boundary, agree with full decoding, and fail on every strict prefix.",
+         "All item trees up to 6 nodes over a structural alphabet (definite/indefinite arrays and maps, chunked strings, tags) x 6 suffixes, all width assignments for <= 3 nodes, every strict prefix, every head form of every leaf kind (all argument widths, one- and two-byte simple values, the extremes of the integer range) in trees <= 4 nodes, and all 155 nesting patterns of period <= 3 at depth 10^4: skip() must end exactly at the item boundary, agree with full decoding, and fail on every strict prefix.",
          "trusted: refmodel encoder (item length by construction); no-alloc build covered by the C20 probe builds", "5/C06"),
  "C01": (True, "exhaustive value-space enumeration (all values of small types, boundary lattice, product domains) through the real encoder and decoder",
-         "Every value of the small exhaustive domain of each of ~120 concrete instantiations of the built-in Encode/Decode impls is encoded and decoded back (alone and followed by 00/ff) and compared through an independent mapping to the data model; scalars are swept exhaustively (16-bit types and char always, all 2^32 u32/i32/f32 in the thorough tier).",
+         "Every value of the small exhaustive domain of each of ~140 concrete instantiations of the built-in Encode/Decode impls (incl. the minicbor::bytes codec family and every Token variant) is encoded through every public entry point (to_vec, to_vec_with, encode, encode_with, Encoder::encode[_with]) and decoded back through every public entry point (alone and followed by 00/ff), compared through an independent mapping to the data model; scalars are swept exhaustively (16-bit types and char always, all 2^32 u32/i32/f32 in the thorough tier).",
          "trusted: ToModel mapping in harness/checks/src/types.rs, refmodel::shape::canon; 64-bit scalars are covered on the 2^k +- 3 lattice, not exhaustively", "5/C01"),
  "C03": (True, "exhaustive argument enumeration of Encoder methods + explicit-state DFS over balanced Encoder call sequences against an independent RFC 8949 parser/encoder",
          "All arguments of every Encoder method (exhaustive up to 16 bits, 2^32 in the thorough tier, lattice for 64 bits), all small-domain values of the built-in Encode impls and every balanced call sequence up to depth 5/6 are executed on the real encoder; output must parse as exactly the expected items with the independent parser and be byte-identical to the reference preferred serialisation.",
@@ -59,13 +59,13 @@ CHECKS = {
          "All 65536 half patterns, a 2^24-ish lattice (thorough: all 2^32) of single patterns and a sign/exponent x boundary-mantissa lattice of double patterns are decoded through f16/f32/f64 and re-encoded; explicit half encoding is compared with a reference round-to-nearest-even conversion.",
          "trusted: refmodel::float (independent of the half crate, cross-checked against std widening); f64 space is a lattice", "5/C12"),
  "C14": (True, "deviation-bounded stateless exploration of a scripted std::io::Read / Write (all read compositions x Interrupted placements x truncation points)",
-         "Every schedule in which a scripted blocking source fragments the stream (all compositions of every read), injects up to N Interrupted errors and ends the stream at every byte offset is executed against the real Reader and compared with a list-of-values model; the Writer is explored the same way over all short-write splits. Exhaustive within the stated stream-length and deviation bounds.",
+         "Every schedule in which a scripted blocking source fragments the stream (all compositions of every read), injects up to N Interrupted errors and ends the stream at every byte offset is executed against the real Reader and compared with a list-of-values model; the Writer is explored the same way over all short-write splits. Both are built with every constructor (new, with_buffer over three kinds of recycled buffer), set_max_len is re-applied between calls, and frames whose payload length crosses a byte of the prefix (255..65537 bytes) or sits at the default maximum (512 KiB, 512 KiB + 1) are included under a deviation-bounded transfer-size menu. Exhaustive within the stated stream-length and deviation bounds.",
          "trusted: the list-of-values model in harness/checks/src/io_common.rs, the explorer (mcx::explore), rustc; streams longer than the bound and more Interrupted errors than the budget are not explored", "5/C14"),
  "C15": (True, "deviation-bounded stateless exploration of poll/drop schedules over a scripted AsyncRead, hand-driven futures",
-         "All interleavings of source outcomes {deliver k, Pending, transient error, end of stream} with caller decisions {poll again, drop the future and re-issue read} are enumerated up to a deviation budget and executed on the real AsyncReader; the value sequence must equal the written list, each injected error surfaces exactly once, a torn frame never yields a value.",
+         "All interleavings of source outcomes {deliver k, Pending, transient error, end of stream} with caller decisions {poll again, drop the future and re-issue read} are enumerated up to a deviation budget and executed on the real AsyncReader; the value sequence must equal the written list, each injected error surfaces exactly once, a torn frame never yields a value. Every constructor kind, set_max_len at quiescent points with a frame in flight, and frames of 255..65537 bytes and at the default maximum are included.",
          "trusted: list-of-values model, explorer, no-op waker driver; bounds on stream length, consecutive Pending, errors and drops are reported in the evidence", "5/C15"),
  "C16": (True, "deviation-bounded stateless exploration of write/sync schedules over a scripted AsyncWrite",
-         "All interleavings of sink outcomes {accept k of n, Pending, transient error, accept 0} with caller decisions {poll again, drop write/sync future then sync} are enumerated up to a deviation budget on the real AsyncWriter; sink bytes must equal the concatenation of complete frames at every idle point and be a prefix-extension while a frame is in flight.",
+         "All interleavings of sink outcomes {accept k of n, Pending, transient error, accept 0} with caller decisions {poll again, drop write/sync future then sync} are enumerated up to a deviation budget on the real AsyncWriter; sink bytes must equal the concatenation of complete frames at every idle point and be a prefix-extension while a frame is in flight. Every constructor kind, set_max_len while a frame is in flight, and values of 255..65537 bytes and at the default maximum are included.",
          "trusted: concatenation-of-frames model, explorer; write is never re-issued after a cancellation without a completed sync (documented precondition)", "5/C16"),
 }
 
